@@ -456,6 +456,7 @@ func main() {
 	fmt.Fprintf(&b, "def allResults : List String := %s\n", ls(allResults, f.ResultValues))
 	cronrecFacts(&b) // C02 facts (cronrec.go)
 	jcstatusFacts(&b) // C15 facts (jcstatus.go)
+	taskfnFacts(&b)
 	f.Config.emit(&b)
 	writeOptionsFacts(&b, f.Options)
 	b.WriteString("\nend Furiko.Facts\n")
